@@ -38,6 +38,8 @@ def main():
         "engines": [
             {"name": "pbt", "path": "/verif/harness", "serves_properties": sorted(CLAIMED.keys()),
              "kind_free_text": "proptest TestRunner driven from a binary (seeded from VERIF_SEED, failure_persistence off), reference models/oracles in Rust, small-scope exhaustive enumeration, paused tokio clock for async properties"},
+            {"name": "fuzz", "path": "/verif/fuzz", "serves_properties": sorted(set(json.load(open(os.path.join(HERE, "fuzz", "targets.json"))).values())),
+             "kind_free_text": "cargo-fuzz / libFuzzer targets (thorough tier only, after the generated search): input bytes are decoded by a serde byte deserializer into the same Case types, projected into the sound domain (Check::normalise) and judged by the same oracle as the pbt engine; a failure is written as the same replay JSON and confirmed through ./check <ID> replay"},
         ],
         "checks": checks,
         "not_applicable": na,
